@@ -342,3 +342,11 @@ package hclsyntax
 // verif:func (*SplatExpr).Value
 //@ nosafety
 //@ ensures marks: forall k iface :: { marked(ret0, k) } marked(exprVal(old(e.Source), ctx), k) ==> marked(ret0, k) || ret0 == cty.DynamicVal
+
+// Templates: the marks of every interpolated part that is not null are on the result (a null part
+// is an error and the part is skipped).
+// verif:func (*TemplateExpr).Value
+//@ nosafety
+//@ ensures marks: forall j int, k iface :: { marked(exprVal(old(e.Parts[j]), ctx), k) } 0 <= j && j < old(len(e.Parts)) && marked(exprVal(old(e.Parts[j]), ctx), k) && !isNullVal(exprVal(old(e.Parts[j]), ctx)) ==> marked(ret0, k)
+//@ loop 1 invariant marks != nil && fresh(marks) && (forall j int, k iface :: { marked(exprVal(e.Parts[j], ctx), k) } 0 <= j && j <= rangeindex && marked(exprVal(e.Parts[j], ctx), k) && !isNullVal(exprVal(e.Parts[j], ctx)) ==> has(marks, k))
+//@ loop 2 invariant marks != nil && partMarks != marks && (forall k iface :: { has(marks, k) } { atentry(has(marks, k)) } atentry(has(marks, k)) ==> has(marks, k)) && (forall k iface :: { visited(k) } visited(k) ==> has(marks, k)) && (forall k iface :: { has(partMarks, k) } { atentry(has(partMarks, k)) } has(partMarks, k) == atentry(has(partMarks, k)))
